@@ -548,8 +548,20 @@ func (v *Verifier) Discharge(results []*FuncResult, par int) {
 				defer wg2.Done()
 				for o := range ch2 {
 					first := o.Res
-					o.Solve(v.Solver)
-					o.Res.Tried = append(append([]string{"first-attempt:"}, first.Tried...), o.Res.Tried...)
+					tried := append([]string{"first-attempt:"}, first.Tried...)
+					// three further attempts with other seeds, the last with the full budget
+					for k, seed := range []int{11, 23, 0} {
+						t := save
+						if k == 2 {
+							t = 3 * save
+						}
+						o.Res = v.Solver.CheckSeed(o.Name, o.Query(), false, t, seed, "")
+						tried = append(append(tried, fmt.Sprintf("retry(seed %d):", seed)), o.Res.Tried...)
+						if o.Res.Status == "unsat" || o.Res.Status == "sat" {
+							break
+						}
+					}
+					o.Res.Tried = tried
 				}
 			}()
 		}
